@@ -285,16 +285,21 @@ theorem sign_commitment_verifies_msgs (isPrime : Nat → Bool) (pk : PublicKey) 
     (by rw [holderMsgs_length]; exact hlen) hint hprime h).1
 
 /-- the issuer's signing computation on the commitment succeeds when `e` is invertible modulo
-    `order` (so the hypothesis `clSignWith … = some sig` of the theorems here is satisfiable). -/
+    `order` (so the hypothesis `clSignWith … = some sig` of the theorems here is satisfiable).
+    `hneg`: no message of the block is negative and longer than `Lm` bits — for such a message
+    `RepresentToPublicKey` returns its error and nothing is signed (`clSignWith_of_negOversized`);
+    non-negative messages satisfy it. -/
 theorem sign_commitment_succeeds (pk : PublicKey) (order : Int) (secret vPrime : Int)
     (mUser : List (Int × Int)) (keyshareP : Option Int) (U : Int) (ms : List Int) (v e : Int)
     (hk : pk.InGroup order)
     (hP : ∀ p, keyshareP = some p → goExp p order pk.n = some 1)
     (hU : userCommitment pk secret vPrime mUser keyshareP = .ok U)
     (hkeys : ∀ kv ∈ mUser, 0 ≤ kv.1 ∧ kv.1 < pk.r.length)
-    (hlen : ms.length ≤ pk.r.length) (he : Int.gcd e order = 1) :
+    (hlen : ms.length ≤ pk.r.length)
+    (hneg : ∀ m ∈ ms, ¬ (m < 0 ∧ bitLen m > pk.params.Lm)) (he : Int.gcd e order = 1) :
     ∃ sig, clSignWith pk order U ms v e = some sig :=
-  clSignWith_commitment_isSome pk order secret vPrime mUser keyshareP U ms v e hk hP hU hkeys hlen he
+  clSignWith_commitment_isSome pk order secret vPrime mUser keyshareP U ms v e hk hP hU hkeys hlen
+    hneg he
 
 /-! ### 2. the honest `ConstructCredential` -/
 
@@ -329,7 +334,10 @@ theorem construct_honest (pk : PublicKey) (order : Int) (b : CredBuilder)
     can sign and prove (`e` invertible modulo `order`), and whatever signature / proof these
     computations return, the holder constructs a credential that verifies over
     `vals = secret :: attributes'`, where each random-blind attribute is the sum of the two shares
-    and every other attribute is the one that was supplied. -/
+    and every other attribute is the one that was supplied.
+    `hattr`: none of the supplied attributes is negative and longer than `Lm` bits (the issuer's
+    `RepresentToPublicKey` refuses such a block: nothing would be signed); non-negative
+    attributes satisfy it. -/
 theorem issuance_core (pk : PublicKey) (order : Int) (b : CredBuilder)
     (attributes : List (Option Int)) (mIssuer : List (Int × Option Int)) (v e eCommit : Int)
     (hk : pk.InGroup order)
@@ -337,6 +345,7 @@ theorem issuance_core (pk : PublicKey) (order : Int) (b : CredBuilder)
     (hU : userCommitment pk b.secret b.vPrime b.mUser b.keyshareP = .ok b.u)
     (hs0 : 0 ≤ b.secret) (hs1 : b.secret < 2 ^ pk.params.Lm)
     (hh : HonestShares pk.params.Lm attributes mIssuer b.mUser)
+    (hattr : ∀ a, some a ∈ attributes → ¬ (a < 0 ∧ bitLen a > pk.params.Lm))
     (hlen : attributes.length + 1 ≤ pk.r.length)
     (hint : eInInterval pk.params e = true) (hprime : probablyPrime e.toNat = true)
     (he : Int.gcd e order = 1) :
@@ -355,7 +364,8 @@ theorem issuance_core (pk : PublicKey) (order : Int) (b : CredBuilder)
     obtain ⟨a1, a2, _⟩ := hh.blind kv hm
     exact ⟨by omega, by omega⟩
   obtain ⟨sig, hsig⟩ := clSignWith_commitment_isSome pk order b.secret b.vPrime b.mUser b.keyshareP
-    b.u (issuerMsgs attributes mIssuer) v e hk hP hU hkeys (by rw [issuerMsgs_length]; exact hlen) he
+    b.u (issuerMsgs attributes mIssuer) v e hk hP hU hkeys (by rw [issuerMsgs_length]; exact hlen)
+    (issuerMsgs_guard pk.params.Lm attributes mIssuer b.mUser hh hattr) he
   obtain ⟨_, hse, hsv⟩ := clSignWith_keyshareP hsig
   obtain ⟨_, hA⟩ := sign_commitment_verifies_aux probablyPrime pk order b.secret b.vPrime b.mUser
     b.keyshareP b.u _ _ v e sig hk hP hU
@@ -388,7 +398,9 @@ theorem issuance_core (pk : PublicKey) (order : Int) (b : CredBuilder)
     expected to hold for the builder's proof alone (`U` contains the factor `P = R_0^{ks}` that
     only the server's response accounts for — `Alg.keyshare_proofU` is the algebra of the merged
     proof; see the `#guard` below where the builder's own proof is refused); everything after
-    the commitment is `issuance_core`, which covers both cases. -/
+    the commitment is `issuance_core`, which covers both cases.
+    `hattr`: none of the supplied attributes is negative and longer than `Lm` bits (see
+    `issuance_core`). -/
 theorem issuance_complete (pk : PublicKey) (order : Int) (b : CredBuilder) (skRandomizer nonce1 : Int)
     (attributes : List (Option Int)) (mIssuer : List (Int × Option Int)) (v e eCommit : Int)
     (hk : pk.InGroup order) (hkp : b.keyshareP = none)
@@ -398,6 +410,7 @@ theorem issuance_complete (pk : PublicKey) (order : Int) (b : CredBuilder) (skRa
     (hpar : 256 + pk.params.LvPrime ≤ pk.params.LvPrimeCommit)
     (hs0 : 0 ≤ b.secret) (hs1 : b.secret < 2 ^ pk.params.Lm)
     (hh : HonestShares pk.params.Lm attributes mIssuer b.mUser)
+    (hattr : ∀ a, some a ∈ attributes → ¬ (a < 0 ∧ bitLen a > pk.params.Lm))
     (hlen : attributes.length + 1 ≤ pk.r.length)
     (hint : eInInterval pk.params e = true) (hprime : probablyPrime e.toNat = true)
     (he : Int.gcd e order = 1) :
@@ -432,8 +445,8 @@ theorem issuance_complete (pk : PublicKey) (order : Int) (b : CredBuilder) (skRa
   obtain ⟨Ut, hc, hpu⟩ := proofU_complete pk b skRandomizer b.context nonce1 hn
     (hgcd pk.s (by simp)) (fun x hx => hgcd x (by simp [hx])) hr0 hkeys hU hvc0 hvc1 hv0 hv1 hpar
   obtain ⟨sig, ps, vals, h1, h2, h3, h4, h5⟩ := issuance_core pk order b attributes mIssuer v e
-    eCommit hk (by rw [hkp]; intro p hp; cases hp) (by rw [hkp]; exact hU) hs0 hs1 hh hlen hint
-    hprime he
+    eCommit hk (by rw [hkp]; intro p hp; cases hp) (by rw [hkp]; exact hU) hs0 hs1 hh hattr hlen
+    hint hprime he
   rw [hkp] at h3 h4
   exact ⟨Ut, sig, ps, vals, hc, hpu, h1, h2, h3, h4, h5⟩
 
@@ -491,6 +504,13 @@ def toyConstruct (mIssuer : List (Int × Option Int)) (attributes : List (Option
 #guard match toyConstruct [(2, some 6)] [none, none] with
   | some (.error (.nilDeref what)) => what == "attribute" | _ => false
 
+/- `hattr` of `issuance_core` / `issuance_complete` (and `hneg` of `sign_commitment_succeeds`) is
+   needed: with the supplied attribute `-256` (9 bits, `Lm = 8`) in place of `3` all other
+   hypotheses are unchanged (`HonestShares` does not look at the supplied values), and the issuer
+   signs nothing (`RepresentToPublicKey` returns its error); with `256` it signs. -/
+#guard clSignWith toyKey 15 1 (issuerMsgs [some (-256), none] [(2, some 6)]) 6 11 == none
+#guard (clSignWith toyKey 15 1 (issuerMsgs [some 256, none] [(2, some 6)]) 6 11).isSome
+
 set_option exponentiation.threshold 400 in
 /-- the hypotheses of `issuance_complete` (hence of `sign_commitment_verifies`,
     `construct_honest`, `issuance_core`) are satisfiable: the toy run. -/
@@ -514,7 +534,8 @@ example : ∃ (b : CredBuilder) (Ut : Int) (sig : CLSignature) (ps : ProofS) (va
       toyKey_inGroup rfl hU (show (0 : Int) ≤ 1000 by decide)
       (show (1000 : Int) < 2 ^ 300 by decide) (show (0 : Int) ≤ 9 by decide)
       (show (9 : Int) < 2 ^ 8 by decide) (by decide) (show (0 : Int) ≤ 5 by decide)
-      (show (5 : Int) < 2 ^ 8 by decide) toy_honestShares (by decide) (by decide) (by decide)
+      (show (5 : Int) < 2 ^ 8 by decide) toy_honestShares
+      (by intro a ha; simp at ha; subst ha; decide) (by decide) (by decide) (by decide)
       (by decide)
   obtain ⟨mi, hmi, hv⟩ := h9 (2, 4) (by simp [toyBuilder])
   have : mi = 6 := by
